@@ -577,11 +577,18 @@ func (env *SpecEnv) call(n *ast.CallExpr) *Val {
 			}
 			cells := x.lastCalls[fid.Name]
 			if k >= len(cells) {
+				// not executed yet on any path: if the function under
+				// verification calls it somewhere, the value is simply unknown here
+				if t := x.lastCallType(fid.Name, k); t != nil {
+					return x.freshVal("last_"+fid.Name+"_none", t)
+				}
 				sfail("last(%s): no call to %s with result %d was executed", fid.Name, fid.Name, k)
 			}
 			v, ok := env.st.cells[cells[k]]
 			if !ok {
-				sfail("last(%s): %s has not been called on this path", fid.Name, fid.Name)
+				// no call on this path: the value is unknown (nothing can be
+				// proved from it), which is what a path without the call deserves
+				v = x.freshVal("last_"+fid.Name+"_none", cells[k].ty)
 			}
 			return v
 		case "has":
@@ -1119,4 +1126,38 @@ func (env *SpecEnv) qualifiedSpec(f ast.Expr) *SpecFunc {
 		return sf
 	}
 	return nil
+}
+
+
+// lastCallType: the type of result k of a call named name somewhere in the
+// function under verification (or one of its closures); nil if there is none.
+func (x *Exec) lastCallType(name string, k int) types.Type {
+	if x.top == nil {
+		return nil
+	}
+	var found types.Type
+	var visit func(f *ssa.Function)
+	visit = func(f *ssa.Function) {
+		for _, b := range f.Blocks {
+			for _, ins := range b.Instrs {
+				ci, ok := ins.(ssa.CallInstruction)
+				if !ok || found != nil {
+					continue
+				}
+				cc := ci.Common()
+				if lastCallName(cc) != name {
+					continue
+				}
+				res := cc.Signature().Results()
+				if k < res.Len() {
+					found = res.At(k).Type()
+				}
+			}
+		}
+		for _, af := range f.AnonFuncs {
+			visit(af)
+		}
+	}
+	visit(x.top.outermost())
+	return found
 }
